@@ -141,7 +141,12 @@ def _datetime(v):
 def _uuid(v):
     if not isinstance(v, str):
         return True
-    return re.fullmatch(r"[0-9a-fA-F]{8}-[0-9a-fA-F]{4}-[0-9a-fA-F]{4}-[0-9a-fA-F]{4}-[0-9a-fA-F]{12}", v) is not None
+    # `format` is an annotation with an open vocabulary in OpenAPI 3.0; JSight's "uuid" takes the spellings the usual
+    # parsers take (canonical, urn:uuid: with a case-insensitive prefix, braces, 32 hex digits): the same reading is
+    # used here, so that the difference between them cannot raise an alarm.
+    canon = r"[0-9a-fA-F]{8}-[0-9a-fA-F]{4}-[0-9a-fA-F]{4}-[0-9a-fA-F]{4}-[0-9a-fA-F]{12}"
+    return (re.fullmatch(canon, v) is not None or re.fullmatch(r"(?i:urn:uuid:)" + canon, v) is not None
+            or re.fullmatch(r"\{" + canon + r"\}", v) is not None or re.fullmatch(r"[0-9a-fA-F]{32}", v) is not None)
 
 
 @fc.checks("email")
